@@ -32,7 +32,18 @@ META = {
              "spec's Solve / SetOp machine (reassign ONE public operand between solves; named deviation StaleCachedOperand = a "
              "cached A^T b that a new A does not clear) is replayed on one CGLS / PCGLS / FISTA / LM / L_BFGS_B / minimize / "
              "maximize / LS object: every solve must return the point for the operands held NOW, agree with a fresh object / "
-             "direct SciPy call, repeat itself on an unchanged object and leave its operands untouched (deep fingerprints)."),
+             "direct SciPy call, repeat itself on an unchanged object and leave its operands untouched (deep fingerprints).  "
+             "Ill-conditioned least squares (kind cgill): nearly collinear dyadic columns (perturbations 2^-8 .. 2^-10), zero or tiny "
+             "shift, square and tall, with preconditioner - TLC verifies exactly that the constructed point is THE solution of the "
+             "shifted normal equations and two Rayleigh quotients that bound the condition number; in floating point more than n "
+             "iterations are needed (demonstrated by the spec's recurrence run in floating point), and CGLS / PCGLS with a large "
+             "maxit and tol 1e-13 must return the spec's point in matrix and function form.  Lists (kind proc): the spec's Call "
+             "machine - ONE process, a list of DIFFERENT problems solved by different wrapper objects in every order (1- and "
+             "2-dimensional quadratics before / after Nelder-Mead on a 5-variable Rosenbrock-type chain polynomial, L-BFGS-B / CG on "
+             "quadratics with condition number 4^11 / 4^7, Powell, maximize, L_BFGS_B); invariant CallsIndependent (a call works "
+             "under the documented default limit of ITS OWN method and dimension; deviation DefaultsLeakBetweenCalls refuted); "
+             "every order runs in a fresh python process and once more in the harness process, each call compared with SciPy "
+             "called directly with the documented defaults."),
     "note": ("Bounded sizes (n <= 3). Problems whose exact CG iterates exceed TLC's 32-bit integers are followed up to that point "
              "and then compared through their exact solution only (status 'abandoned' in the emitted case). FISTA/LM tolerances are "
              "derived from the solvers' own stopping rules (abstol/(t mu), gradtol |g0|)."),
@@ -919,6 +930,261 @@ def check_seq(ctx, S, c, idx=0):
 
 
 # ----------------------------------------------------------------------------------------------------------
+# ill-conditioned least-squares problems (kind "cgill"): more than n iterations are needed in floating point
+def _ill_reference(A, b, x0, Pinv, shift, tol, maxit):
+    """The spec's machine (Start / Iterate of kind cg, with the stopping rule |s_k| <= tol |s_0| of the documented
+    interface) executed in floating point.  Returns (x, k).  Used only to DEMONSTRATE that an instance needs more than n
+    iterations (vacuity guard) - never as the expected value, which is the spec's exact xsol."""
+    x = x0.copy()
+    r = b - A @ x
+    s = Pinv.T @ (A.T @ r - shift * x)
+    p = s.copy()
+    g0 = gam = float(s @ s)
+    k = 0
+    while k < maxit and gam > 0 and np.sqrt(gam) > tol * np.sqrt(g0):
+        k += 1
+        t = Pinv @ p
+        q = A @ t
+        alpha = gam / float(q @ q + shift * (t @ t))
+        x = x + alpha * t
+        r = r - alpha * q
+        s = Pinv.T @ (A.T @ r - shift * x)
+        gam1, gam = gam, float(s @ s)
+        p = s + (gam / gam1) * p
+    return x, k
+
+
+def check_cgill(ctx, S, c):
+    """c: TLC case of kind cgill - exact dyadic data (A, b, shift), the exact solution xsol of the shifted normal equations,
+    tol = 10^-tolexp and a maxit far above n.  The solver's contract is its stopping rule, not the finite termination of
+    exact arithmetic: the returned point must be xsol within what the stopping rule guarantees."""
+    import scipy.sparse as spa
+    n, m, solver = c["n"], c["m"], c["solver"]
+    A = np.array([[_q(v) for v in row] for row in c["A"]], dtype=float)
+    b, xsol = _qv(c["b"]), _qv(c["xsol"])
+    x0 = np.array(c["x0"], dtype=float)
+    shift = _q(c["shift"])
+    tol, maxit = 10.0 ** (-int(c["tolexp"])), int(c["maxit"])
+    P = np.array(c["P"], dtype=float) if solver == "pcgls" else np.eye(n)
+    Pinv = np.linalg.inv(P)
+    # |s_k| <= tol |s_0| with s = P^-T (A^T r - shift x) = -P^-T M (x - xsol), M = A^T A + shift I
+    #   =>  |x - xsol| <= tol |s_0| / lambda_min(P^-T M P^-1) * |P^-1|
+    M = A.T @ A + shift * np.eye(n)
+    lam = float(np.linalg.eigvalsh(Pinv.T @ M @ Pinv)[0])
+    s0 = float(np.linalg.norm(Pinv.T @ (A.T @ (b - A @ x0) - shift * x0)))
+    cmp_tol = 10 * tol * s0 / lam * float(np.linalg.norm(Pinv, 2)) + 1e-9
+    xr, kr = _ill_reference(A, b, x0, Pinv, shift, tol, maxit)
+    xn, _ = _ill_reference(A, b, x0, Pinv, shift, tol, n)
+    more = kr > n and float(np.abs(xn - xsol).max()) > 100 * cmp_tol and float(np.abs(xr - xsol).max()) <= cmp_tol
+    ob = ctx.observations.setdefault("cgill_reference", {"instances": 0, "need_more_than_n_iterations": 0, "max_iterations": 0})
+    ob["instances"] += 1
+    ob["need_more_than_n_iterations"] += 1 if more else 0
+    ob["max_iterations"] = max(ob["max_iterations"], kr)
+    shtag = "0" if c["shexp"] == 0 else "2^-%d" % c["shexp"]
+    base = "cgill/%s/%%s/shift=%s/form=%%s/m=%d/n=%d/k=%d" % (solver, shtag, m, n, c["k"])
+    res = {}
+    for form in ("matrix", "function"):
+        if _over_budget(ctx, "cgill/"):
+            return
+        ctx.case(("cgill", solver, c["k"], c["pat"], c["tall"], c["shexp"], c["x0"], c["P"], form), nontrivial=True,
+                 facet="cgill/%s/%s" % (solver, form))
+        calls = []
+
+        def Aop(v, flag):
+            calls.append(flag)
+            if flag == 1:
+                return A @ v
+            if flag == 2:
+                return A.T @ v
+            raise ValueError("operator called with flag %r" % (flag,))
+        op = A.copy() if form == "matrix" else Aop
+        try:
+            with warnings.catch_warnings():
+                warnings.simplefilter("ignore")
+                with np.errstate(all="ignore"):
+                    if solver == "cgls":
+                        x, k = S.CGLS(op, b.copy(), x0.copy(), maxit, tol, shift).solve()
+                    else:
+                        x, k = S.PCGLS(op, b.copy(), x0.copy(), spa.csc_matrix(P), maxit, tol, shift).solve()
+        except Exception as e:
+            ctx.mismatch(base % ("raises", form), c, "solver raised %r" % (e,), expected=xsol, observed=repr(e))
+            continue
+        x = np.asarray(x, dtype=float)
+        res[form] = x
+        err = float(np.abs(x - xsol).max()) if x.shape == xsol.shape and np.all(np.isfinite(x)) else float("inf")
+        if err > cmp_tol:
+            ctx.mismatch(base % ("solution", form), c,
+                         "maxit = %d and tol = %g were given, the solver returned after %d iteration(s), and the point is not the "
+                         "solution of the (shifted) normal equations within what |s_k| <= tol |s_0| guarantees (the columns of A are "
+                         "nearly collinear: in floating point more than n = %d iterations are needed; the spec's recurrence run in "
+                         "floating point takes %d)" % (maxit, tol, int(k), n, kr),
+                         expected=xsol, observed=x, detail={"tol": cmp_tol, "error": err, "iterations": int(k),
+                                                            "reference_iterations": kr, "lambda_min": lam})
+        if int(k) > maxit:
+            ctx.mismatch(base % ("itercount", form), c, "more iterations than maxit", "<= %d" % maxit, int(k))
+    if len(res) == 2 and not _close(res["matrix"], res["function"], 1e-6):
+        ctx.mismatch(base % ("forms", "both"), c, "matrix form and function form return different points",
+                     expected=res["matrix"], observed=res["function"])
+
+
+# ----------------------------------------------------------------------------------------------------------
+# one process, a list of different problems (kind "proc")
+def _objective_n(fn, sense):
+    """objectives of any dimension of the spec (NObjF / NObjGrad): quad and the Rosenbrock-type chain polynomial"""
+    a = np.array(fn["a"], dtype=float)
+    cc = np.array(fn["c"], dtype=float)
+    if fn["obj"] == "quad":
+        return _objective(fn, sense)
+    if fn["obj"] != "chain":
+        from cuqiverif.core import MachineryError
+        raise MachineryError("unknown objective %r" % (fn.get("obj"),))
+    a1 = float(a[0])
+    sq = np.sqrt(a1)
+
+    def r(x):
+        x = np.asarray(x, dtype=float)
+        return np.concatenate([x[:-1] - 1.0, sq * (x[1:] - x[:-1] ** 2)])
+
+    def J(x):
+        x = np.asarray(x, dtype=float)
+        n = len(x)
+        Jm = np.zeros((2 * (n - 1), n))
+        for i in range(n - 1):
+            Jm[i, i] = 1.0
+            Jm[n - 1 + i, i] = -2 * sq * x[i]
+            Jm[n - 1 + i, i + 1] = sq
+        return Jm
+
+    def f(x):
+        x = np.asarray(x, dtype=float)
+        return sense * 0.5 * float(np.sum((x[:-1] - 1.0) ** 2) + a1 * np.sum((x[1:] - x[:-1] ** 2) ** 2))
+
+    def g(x):
+        x = np.asarray(x, dtype=float)
+        gr = np.zeros_like(x)
+        gr[:-1] += (x[:-1] - 1.0) - 2 * a1 * (x[1:] - x[:-1] ** 2) * x[:-1]
+        gr[1:] += a1 * (x[1:] - x[:-1] ** 2)
+        return sense * gr
+    return {"f": f, "g": g, "r": r, "J": J, "c": cc}
+
+
+_DROP = object()
+
+
+def _plain(v):
+    """picklable copy of a solver result (SciPy's OptimizeResult -> dict of plain values; opaque objects are dropped)"""
+    if isinstance(v, np.ndarray):
+        return np.array(v)                                          # also CUQIarray -> ndarray
+    if isinstance(v, dict):
+        out = {}
+        for k, t in v.items():
+            t = _plain(t)
+            if t is not _DROP:
+                out[k] = t
+        return out
+    if isinstance(v, (list, tuple)):
+        t = [_plain(i) for i in v]
+        if any(i is _DROP for i in t):
+            return _DROP
+        return tuple(t) if isinstance(v, tuple) else t
+    if isinstance(v, (bool, int, float, str, bytes, type(None), np.generic)):
+        return v
+    return _DROP
+
+
+def _proc_run_list(S, calls):
+    """Run the calls of one list one after the other IN THIS PROCESS: for every call a NEW wrapper object is built and solved, and
+    SciPy is called directly with the same arguments (documented defaults where the call gives none).  Returns one record per call."""
+    out = []
+    for c in calls:
+        x0 = np.array(c["x0"], dtype=float)
+        ob = _objective_n(c, c["sense"])
+        grad = bool(c["grad"])
+        got, e1 = _call(lambda: _wrap_new(S, c["wrapper"], ob, x0.copy(), grad, c["method"], _kwargs(c["kw"])).solve())
+        ref, e2 = _call(lambda: _wrap_reference(c["wrapper"], ob, c["sign"], x0.copy(), grad, c["method"], _kwargs(c["kw"])))
+        out.append({"got": _plain(got) if got is not None else None, "e1": None if e1 is None else (type(e1).__name__, repr(e1)),
+                    "ref": _plain(ref) if ref is not None else None, "e2": None if e2 is None else (type(e2).__name__, repr(e2))})
+    return out
+
+
+def _proc_child(path_in, path_out):
+    """entry point of the fresh process of one list (python -m cuqiverif.props.c16 <in> <out>)"""
+    import pickle
+    S = _solver_mod()
+    calls = json.load(open(path_in))
+    pickle.dump(_proc_run_list(S, calls), open(path_out, "wb"))
+
+
+def _proc_spawn(workdir, idx, calls):
+    import os, subprocess, sys
+    repo = os.environ.get("CUQIVERIF_REPO", "/repo")
+    here = os.path.dirname(os.path.dirname(os.path.dirname(os.path.abspath(__file__))))      # .../harness
+    pin, pout = os.path.join(workdir, "proc-%d.in.json" % idx), os.path.join(workdir, "proc-%d.out.pkl" % idx)
+    json.dump(calls, open(pin, "w"))
+    env = dict(os.environ, PYTHONPATH=here + os.pathsep + repo, OMP_NUM_THREADS="1", TQDM_DISABLE="1")
+    p = subprocess.run([sys.executable, "-m", "cuqiverif.props.c16", pin, pout], env=env, stdout=subprocess.PIPE,
+                       stderr=subprocess.STDOUT, text=True, timeout=900)
+    return p, pout
+
+
+def _exc(t):
+    return None if t is None else type(str(t[0]), (Exception,), {})(t[1])
+
+
+def _proc_compare(ctx, c, where, calls, recs):
+    """one list: every call against SciPy called directly in the same process, and against the spec's optimum"""
+    order = ">".join(k["name"] for k in calls)
+    for i, (k, r) in enumerate(zip(calls, recs)):
+        w = k["wrapper"]
+        sig = "proc/%s/%s/%s/pos=%d/after=%s" % (where, w, k["name"], i, "+".join(t["name"] for t in calls[:i]) or "nothing")
+        ctx.case(("proc", where, order, i), nontrivial=i > 0, facet="proc/%s/%s" % (where, "first" if i == 0 else "later"))
+        ref = r["ref"]
+        if ref is not None and w == "L_BFGS_B":
+            ref = tuple(ref)
+        _wrap_compare(ctx, dict(k, kind="proc", calls=calls), sig, w, r["got"], _exc(r["e1"]), ref, _exc(r["e2"]),
+                      np.array(k["c"], dtype=float), k["sense"])
+        if ref is not None:
+            nit = int(ref[2]["nit"]) if w == "L_BFGS_B" else ref.get("nit")
+            if nit is not None:
+                ctx.observations.setdefault("proc_reference_iterations", {})[k["name"]] = int(nit)
+
+
+def check_proc(ctx, S, cases, workdir, guard=True):
+    """cases: the behaviours of kind proc (one per order of a list).  Each one is run in a FRESH python process (state of the
+    module / of default arguments is as after import), all of them in parallel; finally every list is run once more in THIS
+    process, which has already solved thousands of problems."""
+    import concurrent.futures, os, pickle
+    from cuqiverif.core import MachineryError
+    if not cases:
+        return
+    os.makedirs(workdir, exist_ok=True)
+    with concurrent.futures.ThreadPoolExecutor(max_workers=8) as pool:
+        futs = [pool.submit(_proc_spawn, workdir, i, c["calls"]) for i, c in enumerate(cases)]
+        done = [f.result() for f in futs]
+    for c, (p, pout) in zip(cases, done):
+        if p.returncode != 0 or not os.path.exists(pout):
+            raise MachineryError("the process of the list %s ended with code %s:\n%s" %
+                                 (">".join(k["name"] for k in c["calls"]), p.returncode, "\n".join(p.stdout.splitlines()[-12:])))
+        recs = pickle.load(open(pout, "rb"))
+        _proc_compare(ctx, c, "fresh", c["calls"], recs)
+    for c in cases:
+        if _over_budget(ctx, "proc/", 60):
+            break
+        _proc_compare(ctx, c, "inproc", c["calls"], _proc_run_list(S, c["calls"]))
+    # vacuity: some list must contain a call whose SciPy run needs more iterations than the documented default limit of
+    # another (smaller) call of the same list - otherwise a limit left behind by the smaller problem could not show
+    nits = ctx.observations.get("proc_reference_iterations", {})
+    sens = sorted(set((a["name"], b["name"]) for c in cases for a in c["calls"] for b in c["calls"]
+                      if a["name"] != b["name"] and b["doclimit"] and nits.get(a["name"], 0) > b["doclimit"]))
+    ctx.observe("proc_limit_sensitive_pairs", ["%s needs %d iterations > documented limit %d of %s" %
+                                               (a, nits[a], [k["doclimit"] for c in cases for k in c["calls"] if k["name"] == b][0], b)
+                                               for a, b in sens])
+    if guard and not ctx.violations and len(sens) < 3:
+        raise MachineryError("kind proc: only %d (large, small) pairs where the large problem needs more iterations than the "
+                             "documented limit of the small one: the facet would be vacuous" % len(sens))
+
+
+# ----------------------------------------------------------------------------------------------------------
 def _dispatch(ctx, S, cases, thorough):
     sib = {}
     for c in cases:
@@ -931,6 +1197,8 @@ def _dispatch(ctx, S, cases, thorough):
         counts[k] = counts.get(k, 0) + 1
         if k == "cg":
             check_cg(ctx, S, c, sib.get(_cg_key(c)))
+        elif k == "cgill":
+            check_cgill(ctx, S, c)
         elif k == "prox":
             check_prox(ctx, S, c)
         elif k == "kkt":
@@ -993,7 +1261,7 @@ def run(ctx):
     import concurrent.futures, os
     S = _solver_mod()
     devs = (("PcglsIgnoresShift", "NormalEquations"), ("MaximizeDropsSign", "WrapRelation"),
-            ("StaleCachedOperand", "SeqCurrentOperands"))
+            ("StaleCachedOperand", "SeqCurrentOperands"), ("DefaultsLeakBetweenCalls", "CallsIndependent"))
     wd = lambda label: os.path.join(_tlc.WORK, "Solvers-c16-%s-%d" % (label, os.getpid()))
     # the (small) deviation runs are started together with the main run: three JVM starts in sequence cost minutes on a loaded machine
     pool = concurrent.futures.ThreadPoolExecutor(max_workers=len(devs))
@@ -1001,7 +1269,7 @@ def run(ctx):
                             workdir=wd(dev)) for dev, _ in devs}
     try:
         res = ctx.tlc("Solvers", cfg="Solvers.%s.cfg" % ctx.tier, workers=16, timeout=3600, workdir=wd("main"),
-                      require_actions=["Start", "Iterate", "Solve", "SetOp"] if ctx.tier == "thorough" else None)
+                      require_actions=["Start", "Iterate", "Solve", "SetOp", "Call"] if ctx.tier == "thorough" else None)
     except BaseException:
         concurrent.futures.wait(list(fut.values()))
         for label in ["main"] + [d for d, _ in devs]:                       # nothing of a failed run stays under .work
@@ -1014,7 +1282,7 @@ def run(ctx):
         ctx.model_must_hold(res, "Solvers")
         cases = sorted(res.cases, key=_sort_key)
         kinds = set(c["kind"] for c in cases)
-        if kinds != {"cg", "prox", "kkt", "lm", "wrap", "seq"}:
+        if kinds != {"cg", "cgill", "prox", "kkt", "lm", "wrap", "seq", "proc"}:
             raise MachineryError("Solvers emitted kinds %r" % sorted(kinds))
         # named deviations: the invariants that decide the property must fail when the deviation is switched on
         for dev, inv in devs:
@@ -1025,9 +1293,20 @@ def run(ctx):
         for label in ["main"] + [d for d, _ in devs]:
             _tlc.cleanup(wd(label))
     counts = _dispatch(ctx, S, cases, ctx.tier == "thorough")
+    # lists of different problems, each list in a fresh process (and once more in this one, after everything else)
+    procs = [c for c in cases if c["kind"] == "proc"]
+    try:
+        check_proc(ctx, S, procs, wd("proc"))
+    finally:
+        _tlc.cleanup(wd("proc"))
     ctx.observe("cases_by_kind", counts)
     _vacuity(ctx, cases)
-    for k in ("seq", "cg", "prox", "kkt", "lm", "wrap"):
+    ill = ctx.observations.get("cgill_reference", {})
+    if not ctx.violations and ill.get("need_more_than_n_iterations", 0) < max(1, ill.get("instances", 0) // 2):
+        raise MachineryError("kind cgill: the spec's recurrence run in floating point needs more than n iterations (and n iterations "
+                             "leave an error far above the tolerance) for only %d of %d instances: the facet would be vacuous" %
+                             (ill.get("need_more_than_n_iterations", 0), ill.get("instances", 0)))
+    for k in ("seq", "proc", "cgill", "cg", "prox", "kkt", "lm", "wrap"):
         ex = [c for c in cases if c["kind"] == k]
         c = ex[len(ex) // 2]
         if k == "seq":
@@ -1043,26 +1322,39 @@ def run(ctx):
                 "default bounds in every documented way of passing them; kkt: A, b, x*, g, regulariser (incl. one-sided boxes), "
                 "steps; lm: family with its stationary points and starts; wrap: wrapper x method x objective x documented keyword "
                 "arguments; seq: every behaviour of the spec's Solve / SetOp machine of length SeqLen with at most SeqSets "
-                "reassignments of one public operand, one comparison per Solve of the behaviour); distinct = problem x "
+                "reassignments of one public operand, one comparison per Solve of the behaviour; cgill: constructed ill-conditioned "
+                "problem with its exact solution; proc: every order of a list of calls, one comparison per call and process); distinct = problem x "
                 "call-site / operator form / solver variant (seq: behaviour prefix x form); trivial (not counted) = cg start that "
                 "already solves the normal equations, prox input that is its own image, proximal-gradient run started at the fixed "
                 "point, LM start that is stationary, the first Solve of a sequence on an object nothing was reassigned on")
     ctx.exhaustive = ctx.tier == "quick"      # thorough adds a SAMPLE of the size-3 problems (every Dim3Mod-th matrix)
-    ctx.traces = counts.get("cg", 0) + counts.get("seq", 0)
+    ctx.traces = counts.get("cg", 0) + counts.get("seq", 0) + counts.get("proc", 0)
     ctx.assumptions += ["numpy.linalg.eigvalsh for the strong-convexity constant in the FISTA tolerance",
                         "SciPy called directly (fmin_l_bfgs_b / minimize / least_squares, the documented targets) is the reference "
                         "for the wrapper relation, for default and non-default keyword arguments",
                         "seq: only plain reassignment of PUBLIC attributes in the form the object was constructed with (matrix stays "
                         "matrix, callable stays callable); PCGLS keeps its operands in private attributes (Solve only); maximize.func / "
                         "gradfunc hold negated callables and are not reassigned",
-                        "sizes bounded by the cfg; cg problems with iterates beyond MagBound compared through their exact solution"]
+                        "sizes bounded by the cfg; cg problems with iterates beyond MagBound compared through their exact solution",
+                        "cgill: numpy.linalg.eigvalsh for the smallest eigenvalue in the tolerance 10 tol |s0| / lambda_min (what the stopping "
+                        "rule |s_k| <= tol |s_0| guarantees); exact iterates are not followed (beyond 32-bit rationals): postcondition form",
+                        "proc: every order of a list runs in its own python process (sys.executable -m cuqiverif.props.c16); SciPy called "
+                        "directly in the same process with the documented defaults is the reference"]
 
 
 def replay(ctx, case):
     if case.get("kind") == "model":
         return run(ctx)
     S = _solver_mod()
-    if case["kind"] == "cg":
+    if case["kind"] == "proc":
+        from cuqiverif import tlc as _tlc
+        import os
+        wdir = os.path.join(_tlc.WORK, "Solvers-c16-procreplay-%d" % os.getpid())
+        try:
+            check_proc(ctx, S, [{"kind": "proc", "calls": case["calls"]}], wdir, guard=False)
+        finally:
+            _tlc.cleanup(wdir)
+    elif case["kind"] == "cg":
         sib = None
         if case["solver"] == "pcgls" and case["shift"] != 0:
             # re-emit the shift-0 sibling from TLC to stay spec-driven
@@ -1079,3 +1371,8 @@ def replay(ctx, case):
             check_seq(ctx, S, case, idx)
     else:
         _dispatch(ctx, S, [case], True)
+
+
+if __name__ == "__main__":
+    import sys
+    _proc_child(sys.argv[1], sys.argv[2])
